@@ -193,7 +193,7 @@ func buildWorld(c partDef, repo string) string {
 	}
 	if c.Overlay {
 		ov := filepath.Join(verifDir, ".build", "overlay.json")
-		cmd := exec.Command(goBin(), "run", "-modfile="+mod, "./cmd/instrument", "-repo", repo, "-out", filepath.Join(verifDir, ".build", "overlay"), "-json", ov)
+		cmd := exec.Command(goBin(), "run", "-modfile="+mod, "./cmd/instrument", "-repo", repo, "-out", filepath.Join(verifDir, ".build", "overlay"), "-json", ov, "-extras", filepath.Join(verifDir, "harness", "overlay"))
 		cmd.Dir = filepath.Join(verifDir, "harness")
 		cmd.Env = goEnv()
 		if outb, err := cmd.CombinedOutput(); err != nil {
